@@ -711,6 +711,12 @@ int yr_execute_code(YR_SCAN_CONTEXT* context)
       pop(r3);  // number of true expressions
       pop(r4);  // last expression result
 
+      // The body is a boolean expression, but its value can be any integer
+      // (e.g. "#a", or the left operand of a short-circuited "or"): every
+      // defined non-zero value counts exactly once.
+      if (!is_undef(r4))
+        r4.i = r4.i != 0 ? 1 : 0;
+
       // In case of 'all' loop, end once we the body failed
       if (is_undef(r2))
       {
